@@ -4,11 +4,12 @@
    inductives. *)
 Require Extraction.
 Require ExtrOcamlBasic.
-From NV Require Import Model.Chars Model.Matcher Spec.Matching Model.Boxcar.
+From NV Require Import Model.Chars Model.Matcher Spec.Matching Spec.Statements Model.Boxcar.
 Extraction Language OCaml.
 Extraction "nv.ml" config_of preset_default preset_match_paths preset_set_match_paths
   to_lower is_upper normalize norm class class_norm cls_rank wf_char
   run bonus_for layout_size slab_alloc_ok
   nh subseq_b embedding_b contiguous_from fzf_score occurs spec_substring_pos spec_lead spec_trail best_score
   spec_bonus_at spec_bonus_cfg needle_ok spec_prefix spec_postfix spec_exact
+  layout_offsets view_lengths
   init_state do_event step_thread lookup location_of.
